@@ -15,7 +15,8 @@ R13.3  lock times: acceptance under tx lock time / sequence values around every 
        BIP-65 / BIP-112 as implemented by the reference execution
 R13.4  from_txdata: decision table per output type (which stack is kept, emptiness requirements, commitment check
        dominating success, script code) against BIP-16/141/143/341
-R13.5  signature-type partition: Interpreter::verify_sig selects the sighash flavour by output type"""
+R13.5  signature-type partition: Interpreter::verify_sig selects the sighash flavour by output type
+R13.6  the conditions reported for an accepted witness, taken as the only assets, satisfy the script's spending condition"""
 
 import itertools
 import os
@@ -92,6 +93,49 @@ def to_model(F, n, ctx):
     else:
         t = Adt(T, v, {str(i): c for i, c in enumerate(kids)})
     return ms(t)
+
+
+def ast_policy(n):
+    """specification semantics of a miniscript (spec AST) as a policy_sem tuple"""
+    v = n.v
+    k = [ast_policy(c) for c in n.kids]
+    if v == "True":
+        return ("T",)
+    if v == "False":
+        return ("F",)
+    if v in ("PkK", "PkH"):
+        return ("key", n.data)
+    if v in ("After", "Older"):
+        return (v.lower(), n.data)
+    if v in ALG:
+        return ("hash", ALG[v], n.data)
+    if v in ("AndV", "AndB"):
+        return ("and", k)
+    if v in ("OrB", "OrC", "OrD", "OrI"):
+        return ("or", k)
+    if v == "AndOr":
+        return ("or", [("and", [k[0], k[1]]), k[2]])
+    if v == "Thresh":
+        return ("thresh", n.data, k)
+    if v in ("Multi", "SortedMulti", "MultiA", "SortedMultiA"):
+        return ("thresh", n.data[0], [("key", x) for x in n.data[1]])
+    if len(k) == 1:
+        return k[0]          # wrappers
+    raise Unsupported("semantics of %s" % v)
+
+
+def policy_holds(pol, cons):
+    sys.path.insert(0, os.path.join(os.path.dirname(__file__), "..", "..", "spec"))
+    import policy_sem as PS
+    env = {}
+    for a in PS.atoms(pol):
+        if a[0] == "key":
+            env[a] = ("sig", a[1]) in cons
+        elif a[0] == "hash":
+            env[a] = any(c[0] == "hash" and c[1] == a[1] and c[2] == a[2] for c in cons)
+        else:
+            env[a] = (a[0], a[1]) in cons
+    return PS.ev(pol, env)
 
 
 def element(v):
@@ -472,6 +516,10 @@ def check_iter(chk, F):
         results = pool.map(_work, jobs, chunksize=1)
     n_cases = 0
     accepted = 0
+    policies, bad6, n6 = {}, [], [0]
+    chk.rule("R13.6", "for every accepted witness of R13.1-R13.3 the conditions the interpreter reports (signatures, preimages, "
+                      "lock times), taken as the only available assets, make the script's spending condition (specification "
+                      "semantics of the miniscript) true")
     for (text, ctx, status, msg, recs) in results:
         skey = "%s|%s" % (ctx, text)
         if status == "unsupported":
@@ -492,6 +540,14 @@ def check_iter(chk, F):
                                      % (w, detail))
                 elif sorted(map(repr, cons)) != sorted(map(repr, rlog)):
                     bad[rule].append("witness %r: reported constraints %r, executed checks %r" % (w, cons, rlog))
+                # R13.6: the reported conditions, taken as the only available assets, satisfy the script's policy
+                pol = policies.get((text, ctx))
+                if pol is None:
+                    pol = policies[(text, ctx)] = ast_policy(X.parse(text))
+                if not policy_holds(pol, cons):
+                    bad6.append("%s [%s]: witness %r accepted with reported conditions %r, which do not satisfy the spending "
+                                "condition %r" % (text, ctx, w, cons, pol))
+                n6[0] += 1
         for rule, msgs in bad.items():
             if msgs:
                 chk.fail(rule, skey, "%d case(s); first: %s" % (len(msgs), msgs[0]), where="src/interpreter/mod.rs",
@@ -500,6 +556,9 @@ def check_iter(chk, F):
                 chk.ok(rule)
         if recs:
             chk.sample("%s [%s]: %d cases, %d accepted" % (text, ctx, len(recs), sum(1 for r in recs if r[2] == "ok")))
+    chk.obligation("R13.6", not bad6, "reported-conditions", "%d case(s); first: %s" % (len(bad6), bad6[0] if bad6 else ""),
+                   where="src/interpreter/mod.rs", detail=bad6[:10])
+    chk.floor("R13.6", "accepted witnesses judged", n6[0], 250)
     chk.extra["R13_cases"] = n_cases
     chk.extra["R13_accepted_cases"] = accepted
     chk.floor("R13.2", "witness cases evaluated", n_cases, 8000 if chk.tier == "quick" else 50000)
